@@ -134,7 +134,7 @@ func init() {
 		Gen: func(r *sim.Rng, tier string, idx int) *WCase {
 			c := genXZWCase(r, tier, idx, true)
 			if isVeryFarCase(tier, idx) {
-				pl, dc := veryFarPayload(r)
+				pl, dc := veryFarPayload(r, idx)
 				c.XZ.DictCap, c.XZ.Matcher, c.XZ.BlockSize, c.XZ.BufSize = dc, 0, 0, 4096
 				c.Payload, c.RDict = pl, 0
 				c.Ops = []Op{{K: "w", N: pl.Len()}, {K: "c"}}
